@@ -693,3 +693,258 @@ def c04(rep, tier, seed, wd):
 
 
 CHECKS.update({"C09": ("fault_enumeration", c09), "C04": ("fault_enumeration", c04)})
+
+
+# --------------------------------------------------------------------------- C08 / C13 / attribute part of C12
+BUILTIN = [6, 8, 9, 10, 20, 21, 28, 29, 30, 32, 36, 37, 32770, 32771, 32802, 32803, 32808, 32809, 32810]
+TEXT_TYPES = [6, 20, 21, 32802, 32771]
+UTF8_ALPHA = [0x00, 0x7f, 0x80, 0xbf, 0xc0, 0xc1, 0xc2, 0xdf, 0xe0, 0xa0, 0x9f, 0xed, 0xef, 0xf0, 0x8f, 0x90, 0xf4, 0xf5, 0xff, 0x41]
+TID0 = list(range(1, 13))
+
+
+def attr_cases(tier, rng):
+    cases = []
+    def add(ty, val, tid=None, src=""):
+        cases.append({"type": ty, "value": list(val), "tid": tid or TID0, "src": src})
+    # (a) every length 0..800 (quick: around every guard) for every type, neutral content
+    if tier == "quick":
+        lens = sorted(set(list(range(0, 41)) + list(range(505, 520)) + list(range(758, 775)) + [252, 253, 254, 255, 256, 257, 800]))
+    else:
+        lens = list(range(0, 801))
+    for ty in BUILTIN:
+        for n in lens:
+            fill = 0x61 if ty in TEXT_TYPES else (n * 7) % 256
+            v = [fill] * n
+            if ty == 9 and n >= 4:
+                v[0:4] = [0, 0, 4, 20]
+            if ty in (32, 32803) and n >= 2:
+                v[0:2] = [0, 1 if n < 14 else 2]
+            if ty in (29, 32770):
+                v = [([0, 1, 0, 0] if (i // 4) % 2 == 0 else [0, 2, 0, 0])[i % 4] for i in range(n)]
+            add(ty, v, src="length sweep")
+    # (b) UTF-8 boundary alphabet: all strings of length <= 2, sampled 3 and 4, for the text types and the ERROR-CODE reason
+    import itertools
+    seqs = [()] + [(a,) for a in UTF8_ALPHA] + list(itertools.product(UTF8_ALPHA, repeat=2))
+    seqs += [tuple(rng.choice(UTF8_ALPHA) for _ in range(rng.choice([3, 4]))) for _ in range(600 if tier == "quick" else 6000)]
+    good = [[0xc2, 0x80], [0xdf, 0xbf], [0xe0, 0xa0, 0x80], [0xed, 0x9f, 0xbf], [0xef, 0xbf, 0xbf], [0xf0, 0x90, 0x80, 0x80], [0xf4, 0x8f, 0xbf, 0xbf]]
+    for ty in TEXT_TYPES:
+        for s in seqs if ty in (6, 32802) or tier != "quick" else seqs[::7]:
+            add(ty, list(s), src="utf-8 alphabet")
+        for g in good:
+            add(ty, g, src="utf-8 good")
+            add(ty, g[:-1], src="utf-8 cut")
+    for s in seqs[::5]:
+        add(9, [0, 0, 3, 0] + list(s), src="error reason utf-8")
+    # (c) ERROR-CODE class/number bytes (thorough: all 65536 pairs)
+    if tier == "quick":
+        pairs = [(c, x) for c in range(256) for x in (0, 1, 98, 99, 100, 101, 255)] + [(c, x) for c in (0, 2, 3, 4, 6, 7, 8, 11, 14, 15, 0xfb, 0xfe) for x in range(256)]
+    else:
+        pairs = [(c, x) for c in range(256) for x in range(256)]
+    for c, x in pairs:
+        add(9, [0, 0, c, x] + ([0x6f, 0x6b] if (c + x) % 3 == 0 else []), src="error class/number")
+    for r0, r1 in [(1, 0), (0, 1), (255, 255)]:
+        add(9, [r0, r1, 4, 1], src="error reserved bits")
+    # (d) addresses: every family byte x lengths; first byte; all-ones / cookie-equal addresses; ports
+    for ty in (32, 32803):
+        for fam in range(256):
+            for n in (4, 8, 20, 12):
+                add(ty, [0, fam] + [(fam * 3 + i) % 256 for i in range(n - 2)], src="family byte")
+        for first in (1, 255):
+            add(ty, [first, 1, 0x12, 0x34, 1, 2, 3, 4], src="address first byte")
+        for port in [0, 1, 0x2112, 0x2113, 0xffff, 0x8000] + [rng.randrange(65536) for _ in range(20)]:
+            for ip in ([0, 0, 0, 0], [255] * 4, [0x21, 0x12, 0xa4, 0x42], [rng.randrange(256) for _ in range(4)]):
+                add(ty, [0, 1, port >> 8, port & 255] + ip, src="v4 address")
+            for ip in ([0] * 16, [255] * 16, [0x21, 0x12, 0xa4, 0x42] + TID0, [rng.randrange(256) for _ in range(16)]):
+                for tid in (TID0, [0] * 12, [255] * 12, [rng.randrange(256) for _ in range(12)]):
+                    add(ty, [0, 2, port >> 8, port & 255] + ip, tid=tid, src="v6 address")
+    # (e) password algorithms: ids, parameter lengths, trailing bytes, lists
+    for alg in range(0, 5):
+        for plen in (0, 1, 4):
+            add(29, [0, alg, 0, plen] + [0] * plen, src="password algorithm")
+            add(32770, [0, alg, 0, plen] + [0] * plen, src="password algorithms")
+            add(32770, [0, 1, 0, 0, 0, alg, 0, plen] + [0] * plen, src="password algorithms")
+    add(29, [0, 1, 0, 0, 0, 0, 0, 0], src="password algorithm trailing bytes")
+    add(29, [1, 1, 0, 0], src="password algorithm high byte")
+    add(32770, [0, 1, 0, 0, 0, 2, 0, 0, 0, 2, 0, 0], src="password algorithms list")
+    # (f) unknown-attributes lists, fixed-size blobs with random content
+    for n in (0, 2, 4, 6, 40):
+        add(10, [rng.randrange(256) for _ in range(n)], src="unknown attributes")
+    for ty, n in ((8, 20), (28, 16), (28, 20), (28, 24), (28, 28), (28, 32), (30, 32), (36, 4), (32808, 4), (32809, 8), (32810, 8)):
+        for _ in range(4):
+            add(ty, [rng.randrange(256) for _ in range(n)], src="random blob")
+        add(ty, [255] * n, src="all ones")
+    # (g) raw attributes of other types (no built-in decoder): serialisation paths and wrong-implementation refusals
+    for n in (lens if tier != "quick" else lens[::3]):
+        add(rng.choice([0x7f00, 0xff00, 0x0001, 0x8000]), [rng.randrange(256) for _ in range(n)], src="raw attribute")
+    return cases
+
+
+def run_attr_pipeline(cases, wd, tag):
+    cp = os.path.join(wd, tag + ".cases")
+    op = os.path.join(wd, tag + ".obs")
+    with open(cp, "w") as f:
+        for c in cases:
+            f.write(json.dumps(c) + "\n")
+    run_harness(["attrs", cp, op])
+    obs = read_ndjson(op)
+    r = tlc_judge("MCAttrs.tla", "MCAttrs.cfg", {"CASES": cp}, "attribute judge")
+    if '"ATTR-ALGEBRA-OK"' not in r["out"]:
+        raise ToolError("MCAttrs: in-spec theorems not evaluated")
+    exps = {}
+    for ln in r["out"].splitlines():
+        if ln.startswith('"EXPECT '):
+            e = json.loads(json.loads(ln)[7:])
+            exps[e["i"]] = e
+    if len(exps) != len(cases) or len(obs) != len(cases):
+        raise ToolError("attribute judge saw %d/%d cases, adapter %d" % (len(exps), len(cases), len(obs)))
+    os.remove(cp)
+    os.remove(op)
+    return [(c, obs[k], exps[k + 1]) for k, c in enumerate(cases)]
+
+
+FIELD_KEYS = ("text", "code", "list", "hmac", "hash", "u32", "fp", "u64", "alg", "algs", "addr")
+
+
+def compare_attr(case, obs, exp):
+    must, asis = [], []
+    ty = case["type"]
+    d = obs["dec"]
+    if "panic" in d or find_panic(obs):
+        must.append((["C01", "C08"], "panic: %s" % json.dumps(find_panic(obs))[:200]))
+        return must, asis
+    if obs.get("wrong_impl_bad"):
+        must.append((["C08"], "decoders of other types did not refuse as the wrong implementation: %s" % json.dumps(obs["wrong_impl_bad"])[:200]))
+    raw = obs["raw"]
+    wire = exp["wire"]
+    # raw attribute: all serialisation paths give the TLV wire form (C12)
+    if raw["bytes"] != wire or raw["write"].get("bytes") != wire or raw["padded_len"] != len(wire) or raw["length"] != len(case["value"]) \
+            or raw["write"].get("n") != len(wire) or raw["write"].get("tail_intact") is not True or not raw["reparsed"]:
+        must.append((["C12"], "raw attribute serialisation: %s, specification wire form %s" % (json.dumps({k: raw[k] for k in ("padded_len", "length", "reparsed")}), wire[:12])))
+    if ty not in BUILTIN:
+        if d.get("err") != "NoBuiltinDecoder":
+            raise ToolError("adapter: unexpected decoder for type %d" % ty)
+        return must, asis
+    vd = exp["verdict"]
+    if vd == "asis":
+        return must, asis
+    if vd == "invalid":
+        if d.get("ok"):
+            must.append((["C08"], "decoded a value the RFC encoding rules do not allow: %s" % json.dumps({k: d[k] for k in d if k in FIELD_KEYS})[:200]))
+        return must, asis
+    if not d.get("ok"):
+        must.append((["C08"], "refused a legal value: %s" % json.dumps(d)))
+        return must, asis
+    ef = exp["fields"]
+    for k in FIELD_KEYS:
+        if k in ef:
+            want = ef[k]
+            got = d.get(k)
+            if k == "addr":
+                want = {"fam": want["fam"], "ip": want["ip"], "port": want["port"]}
+            if got != want:
+                must.append((["C13", "C08"] if ty == 32 else ["C08"], "field %s: impl %s spec %s" % (k, str(got)[:120], str(want)[:120])))
+    canon = exp["canon"]
+    if d.get("re") != canon:
+        must.append((["C13", "C08"] if ty == 32 else ["C08"], "re-encoding through the constructor: %s, canonical %s" % (str(d.get("re"))[:100], canon[:30])))
+    if d.get("re_builder", canon) != canon:
+        must.append((["C08"], "ErrorCode::builder re-encoding differs"))
+    enc = d.get("enc", {})
+    if enc:
+        vlen = len(canon) - 4 - ((4 - (len(exp["wire"]) - 4 - len(case["value"])) % 4) % 4 if False else 0)
+        ok_paths = enc.get("raw_bytes") == canon and enc.get("write", {}).get("bytes") == canon and enc.get("padded_len") == len(canon) \
+            and enc.get("write", {}).get("n") == len(canon) and enc.get("write", {}).get("tail_intact") is True \
+            and enc.get("type") == ty and enc.get("raw_type") == ty
+        declared = canon[2] * 256 + canon[3]
+        if not ok_paths or enc.get("length") != declared or enc.get("raw_len") != declared:
+            must.append((["C12", "C08"], "serialisation paths of the decoded value disagree with the canonical wire form: %s vs %s" % (
+                json.dumps({k: enc.get(k) for k in ("length", "padded_len", "raw_len")}), canon[:16])))
+        ws = enc.get("write_short", {})
+        if len(canon) > 0 and not (ws.get("err") == "TooSmall" and ws.get("expected") == len(canon) and ws.get("actual") == len(canon) - 1 and ws.get("untouched") is True):
+            must.append((["C12"], "write_into a buffer one byte short: %s" % json.dumps(ws)))
+    if d.get("eq_self") is False:
+        must.append((["C08"], "decoded value is not equal to its clone"))
+    return must, asis
+
+
+def attr_check(pid, rep, tier, seed, wd, only_types=None):
+    rng = random.Random(seed)
+    cases = attr_cases(tier, rng)
+    if only_types:
+        cases = [c for c in cases if c["type"] in only_types]
+    trip = run_attr_pipeline(cases, wd, "attrs")
+    stats = {"valid": 0, "invalid": 0, "asis": 0}
+    per_type = {}
+    for case, obs, exp in trip:
+        stats[exp["verdict"]] += 1
+        per_type[case["type"]] = per_type.get(case["type"], 0) + 1
+        must, asis = compare_attr(case, obs, exp)
+        for pids, what in must:
+            if pid in pids:
+                rep.violation("attribute type %d (%s), value %s: %s" % (case["type"], case["src"], str(case["value"])[:80], what),
+                              {"kind": "attr_case", "case": case})
+            else:
+                for p in pids:
+                    rep.note_foreign(p)
+    return cases, stats, per_type
+
+
+def c08(rep, tier, seed, wd):
+    cases, stats, per_type = attr_check("C08", rep, tier, seed, wd)
+    if stats["valid"] < 100 or stats["invalid"] < 100 or len([t for t in per_type if t in BUILTIN]) != 19:
+        raise ToolError("vacuity in C08: %s" % stats)
+    rep.add_cov(evaluations=len(cases), distinct_nontrivial=len({(c["type"], bytes(c["value"])) for c in cases}),
+                verdicts=stats, cases_per_type={str(k): v for k, v in per_type.items()},
+                samples=[cases[10], cases[len(cases) // 2]],
+                rule="per type: every value length 0..800 (quick: around every guard 0..40, 505..519, 758..774) with neutral content; all strings over a 20-byte UTF-8 boundary alphabet of length <= 2 and sampled 3-4 for the text types and the ERROR-CODE reason; ERROR-CODE class/number bytes (thorough: all 65536 pairs; quick: all classes x boundary numbers + boundary classes x all numbers); every address family byte x lengths; password algorithm ids, parameter lengths, trailing bytes; random fixed-size blobs. TLC (MCAttrs) gives Verdict/Fields/canonical encoding per case and checks the in-spec round-trip theorems on complete small domains; compared: accept/refuse, every exposed field, re-encoding through the public constructor, wrong-implementation refusal by the 18 other decoders")
+    rep.assumptions += ["USERNAME 509..513 bytes, ALTERNATE-DOMAIN > 255 bytes, empty PASSWORD-ALGORITHMS, set reserved bits are as-is (RFCs disagree or leave open)",
+                        "the error variant for an invalid value is not compared"]
+
+
+def c13(rep, tier, seed, wd):
+    rng = random.Random(seed)
+    cases = [c for c in attr_cases(tier, rng) if c["type"] == 32]
+    # many more random addresses / ids / ports for the XOR attribute
+    n = 3000 if tier == "quick" else 30000
+    for _ in range(n):
+        tid = rng.choice([TID0, [0] * 12, [255] * 12, [rng.randrange(256) for _ in range(12)]])
+        port = rng.choice([0, 0x2112, 0xffff, rng.randrange(65536)])
+        if rng.random() < 0.5:
+            ip = rng.choice([[0] * 4, [255] * 4, [0x21, 0x12, 0xa4, 0x42], [rng.randrange(256) for _ in range(4)]])
+            cases.append({"type": 32, "value": [0, 1, port >> 8, port & 255] + ip, "tid": tid, "src": "random v4"})
+        else:
+            ip = rng.choice([[0] * 16, [255] * 16, [0x21, 0x12, 0xa4, 0x42] + tid, [rng.randrange(256) for _ in range(16)]])
+            cases.append({"type": 32, "value": [0, 2, port >> 8, port & 255] + ip, "tid": tid, "src": "random v6"})
+    # all ports once
+    for port in range(0, 65536, 1 if tier != "quick" else 17):
+        cases.append({"type": 32, "value": [0, 1, port >> 8, port & 255, 10, 0, 0, 1], "tid": TID0, "src": "port sweep"})
+    trip = run_attr_pipeline(cases, wd, "xor")
+    nv = 0
+    for case, obs, exp in trip:
+        nv += exp["verdict"] == "valid"
+        must, asis = compare_attr(case, obs, exp)
+        for pids, what in must:
+            if "C13" in pids:
+                rep.violation("XOR-MAPPED-ADDRESS value %s under id %s: %s" % (case["value"], case["tid"], what), {"kind": "attr_case", "case": case})
+            else:
+                for p in pids:
+                    rep.note_foreign(p)
+    # constructor direction: new(addr, tid) -> wire -> addr, and decoding under another id (adapter mode xor)
+    xp = os.path.join(wd, "xor.ndjson")
+    run_harness(["xor", xp, str(seed), str(2000 if tier == "quick" else 50000)])
+    recs = read_ndjson(xp)
+    r = tlc_judge("MCXor.tla", "MCXor.cfg", {"TABLE": xp}, "MCXor")
+    m = re.search(r'"JUDGED (\d+)"', r["out"])
+    if not m or int(m.group(1)) != len(recs):
+        raise ToolError("MCXor judged %s of %d" % (m.group(1) if m else None, len(recs)))
+    for mm in re.finditer(r'"MISMATCH (\d+)"', r["out"]):
+        rec = recs[int(mm.group(1)) - 1]
+        rep.violation("XorMappedAddress::new/addr: %s" % json.dumps(rec)[:300], {"kind": "table_record", "record": rec})
+    os.remove(xp)
+    rep.add_cov(evaluations=len(cases) + len(recs), distinct_nontrivial=len({(bytes(c["value"]), bytes(c["tid"])) for c in cases}) + len(recs),
+                valid_wire_values=nv, constructor_round_trips=len(recs),
+                samples=[cases[-1], recs[0]],
+                rule="wire values (IPv4/IPv6, all-zero/all-one/cookie-equal addresses, ports incl. 0, 0x2112, 0xffff and a sweep of all ports (quick: every 17th), boundary and random transaction ids) decoded by the implementation and by XorAddr in TLA+; constructor direction: XorMappedAddress::new(a, t) -> to_raw -> from_raw -> addr(t) = a, wire bytes = the TLA+ encoding, and an IPv6 value read under another id differs; byte-wise XOR involution/injectivity and all 65536 ports checked exhaustively in the specification (MCAttrs ASSUMEs)")
+    rep.assumptions += ["addresses are sampled with boundary patterns; IPv6 flow label / scope id are not representable in the attribute"]
+
+
+CHECKS.update({"C08": ("model_checking", c08), "C13": ("model_checking", c13)})
